@@ -481,6 +481,108 @@ class RaceSuite(SchedSuite):
         return super().judge(op, impl, model)
 
 
+class SwapRace(SyncSuite):
+    """C04 / C08: the destination walker runs concurrently with the changes applied to the entries it has already reported. The window between
+    reporting a directory and opening it cannot be forced from outside, so it is explored statistically: tiny transfers whose first change
+    replaces a destination DIRECTORY by a FIFO / device / file / symlink, thousands of times, by harness processes that share two CPUs with
+    CPU-bound competitors (the preemption that opens the window)."""
+    name = "swaprace"
+    focus = ("c01",)
+    unpriv_share = 0
+    n_cases = {"quick": 960, "thorough": 8000, "search": 480}
+    rule = ("destination directory (with children) vs source non-directory of the same name (FIFO 60%, device, file, symlink), at depth 0..2, 1..3 such pairs per case; "
+            "8 harness processes pinned to two CPUs together with 4 busy loops; a transfer that blocks (watchdog: 1.5 s without stream traffic) or fails is a "
+            "violation; oracle otherwise as suite sync; non-trivial = every case (each has a swapped directory)")
+
+    def gen_case(self, rng):
+        names = [b"a", b"..a", b"b-", b"d", b"zz"]
+        src, dst = [], []
+        base = b""
+        for _ in range(rng.choice([0, 0, 1, 2])):
+            base = (base + b"/" if base else b"") + rng.choice(names)
+            d = {"p": hx(base), "t": "dir", "mode": 0o755, "uid": 0, "gid": 0, "mt": 1700000000000000001}
+            src.append(dict(d))
+            dst.append(dict(d))
+        used = set()
+        for _ in range(rng.choice([1, 1, 2, 3])):
+            n = rng.choice(names)
+            if n in used:
+                continue
+            used.add(n)
+            p = (base + b"/" if base else b"") + n
+            dst.append({"p": hx(p), "t": "dir", "mode": 0o755, "uid": 0, "gid": 0, "mt": 1700000000000000001})
+            for c in rng.sample([b"f", b"g", b"h"], rng.randint(0, 2)):
+                dst.append({"p": hx(p + b"/" + c), "t": "file", "size": rng.choice([0, 10, 100]), "mode": 0o644, "uid": 0, "gid": 0, "mt": 1700000001000000000})
+            t = rng.choice(["fifo", "fifo", "fifo", "chr", "file", "symlink"])
+            e = {"p": hx(p), "t": t, "mode": rng.choice([0o644, 0o600, 0o2755]), "uid": rng.choice([0, 1000]), "gid": 0, "mt": 1600000000123456789}
+            if t == "file":
+                e["size"] = rng.choice([0, 5, 100])
+            if t == "symlink":
+                e["ln"] = hx(rng.choice([b"/etc", b"x", b"."]))
+                e["mode"] = 0o777
+            if t == "chr":
+                e["maj"], e["min"] = rng.choice([(1, 3), (240, 7), (4, 64)])
+            src.append(e)
+        src.sort(key=lambda e: [c for c in bytes.fromhex(e["p"]).split(b"/")])
+        dst.sort(key=lambda e: [c for c in bytes.fromhex(e["p"]).split(b"/")])
+        opt = {"notify": True, "cap": rng.choice([4, 32, 64]), "seed": rng.randrange(1 << 30), "timeout_ms": 1500}
+        return {"op": "sync", "src": {"kind": rng.choice(["mem", "disk"]), "tree": src}, "dst": dst, "opt": opt}
+
+    def run_impl(self, vh, ops):
+        import json as _json, os as _os, subprocess as _sp, sys as _sys, tempfile as _tf
+        from .. import core
+        cpus = sorted(_os.sched_getaffinity(0))[:2]
+        pin = lambda: _os.sched_setaffinity(0, cpus)
+        hogs = [_sp.Popen([_sys.executable, "-c", "while True: pass"], preexec_fn=pin) for _ in range(4)]
+        env = dict(_os.environ)
+        env["VERIF_SCRATCH"] = core.scratch()
+        nproc = 8
+        k = max(1, (len(ops) + nproc - 1) // nproc)
+        parts = [ops[i:i + k] for i in range(0, len(ops), k)]
+        procs = []
+        try:
+            for part in parts:
+                fin = _tf.NamedTemporaryFile("w", dir=core.run_dir(), suffix=".in", delete=False)
+                for o in part:
+                    fin.write(_json.dumps(o, separators=(",", ":")) + "\n")
+                fin.close()
+                fout = open(fin.name + ".out", "w")
+                procs.append((_sp.Popen([vh], stdin=open(fin.name), stdout=fout, stderr=_sp.PIPE, env=env, preexec_fn=pin), fin.name, fout, len(part)))
+            res = []
+            for pr, name, fout, n in procs:
+                try:
+                    _, err = pr.communicate(timeout=3600)
+                except _sp.TimeoutExpired:
+                    pr.kill()
+                    _, err = pr.communicate()
+                fout.close()
+                ans = []
+                for l in open(name + ".out").read().splitlines():
+                    try:
+                        ans.append(_json.loads(l))
+                    except Exception:
+                        ans.append({"err": "unparsable", "raw": l[:200]})
+                if len(ans) < n:
+                    ans.append({"crash": (err or b"").decode("utf8", "replace")[-600:], "rc": pr.returncode})
+                    while len(ans) < n:
+                        ans.append({"skipped": "not run: the harness process died on an earlier case"})
+                res.extend(ans[:n])
+                _os.unlink(name)
+                _os.unlink(name + ".out")
+            return res
+        finally:
+            for h in hogs:
+                h.kill()
+                h.wait()
+
+    def nontrivial(self, op, impl, model):
+        return True
+
+    def features(self, op, impl, model):
+        ts = sorted(set(e["t"] for e in op["src"]["tree"] if e["t"] != "dir"))
+        return ["swap=%s" % "+".join(ts), "src=%s" % op["src"]["kind"]]
+
+
 class FollowSend(SendFilter):
     """C18 (last clause) and C11 (follow-path configurations): a view filtered by FollowPaths transfers as a self-contained tree in which
     every requested path resolves as in the source"""
